@@ -984,3 +984,10 @@ def bodies_of(prog, qual):
     fs = [f for f in prog.find(qual) if f.has_cfg]
     inst = [f for f in fs if not f.is_pattern]
     return inst if inst else fs
+
+
+def sets_default_flags(txt, stream=None):
+    """`s.flags(std::ios_base::skipws | std::ios_base::dec)` on a stream: exactly the flags basic_ios::init gives every freshly constructed
+    stream - on a fresh local stream the call changes nothing"""
+    m = re.fullmatch(r"\(?(\w+)(?:\.|->)flags\(\(?std::ios_base::(skipws \| std::ios_base::dec|dec \| std::ios_base::skipws)\)?\)\)?", txt.strip())
+    return bool(m) and (stream is None or m.group(1) == stream or m.group(1) in stream)
